@@ -52,7 +52,10 @@ RULE = (
     "gaps, exact repeats, repeats with changed retire_prior_to, same number with a different CID, retire_prior_to in "
     "{0, <=current, current+1, seq-1, seq, >seq}, IDs arriving below an earlier retire_prior_to; RETIRE_CONNECTION_ID for "
     "issued / addressed / already retired / never issued numbers; P switching the DCID it uses; local change_connection_id() "
-    "(also with no spare); selective ACK withholding for E packets that carry RETIRE/NEW_CONNECTION_ID frames; timer firing. "
+    "(also with no spare); selective ACK withholding for E packets that carry RETIRE/NEW_CONNECTION_ID frames; timer firing; "
+    "'blocked' profile: E has a 400 kB send_stream_data() upload in flight and P withholds the ACKs of the data packets, so E's "
+    "congestion window is exhausted (no probe pending) when change_connection_id() / a retiring NEW_CONNECTION_ID / P's DCID "
+    "switch / P's RETIRE_CONNECTION_ID makes a RETIRE or NEW_CONNECTION_ID frame pending; the fair phase then acknowledges everything. "
     "non-trivial = E emitted a RETIRE_CONNECTION_ID or NEW_CONNECTION_ID frame, changed its DCID or closed with a CID error; "
     "distinct = hash of (E role, limits, sequence of op-kind/relation-to-state/outcome classes)."
 )
@@ -99,7 +102,7 @@ def plan(tier, seed):
     rng = random.Random(seed * 7919 + 18)
     combos = [(role, pl, el) for role in ("client", "server") for pl in P_LIMITS for el in E_LIMITS]
     batches = []
-    rounds, n = (2, 56) if tier == "quick" else (50, 100)
+    rounds, n = (2, 56) if tier == "quick" else (40, 100)
     k = 0
     for rnd in range(rounds):
         order = combos[:]
